@@ -864,6 +864,12 @@ def method_call(ex, st, obj, mname, args, kwargs, cx, node, k):
         cname = t.args[0]
         ov = ex.repo.overrides(cname, mname)
         ci, fi = ex.repo.find_method(cname, mname)
+        if fi is None and not ov:
+            # a method the class does not define itself: if the class derives from dict, it is dict's
+            d_ = ex.as_dict_subclass(st, obj)
+            if d_ is not None:
+                from .methods import builtin_method
+                return builtin_method(ex, st, d_, mname, args, kwargs, cx, node, k)
         if ov or fi is None:
             return dispatch(ex, st, obj, mname, args, kwargs, cx, node, k)
         return call_function(ex, st, fi, [obj] + args, kwargs, cx, node, k)
